@@ -127,6 +127,12 @@ def check_msg_wiring(rep, prog, spec, rid, names=None):
 
 
 def run(ctx):
+    _run(ctx)
+    import witness
+    witness.report(ctx, "C10")
+
+
+def _run(ctx):
     rep = ctx.report
     prog = ctx.prog("default")
     spec = load_spec(ctx)
